@@ -9,7 +9,7 @@ MAP_ORDER = [MODULE + '/internal/']
 def run(tier, rep):
     thorough = tier == 'thorough'
     K, K2 = (4, 5) if thorough else (3, 4)
-    PERM = 4 if thorough else 3
+    PERM = 3
     SITES = 1  # two perturbed traversals per path did not finish within an hour at the thorough bounds
     with Scratch() as sc:
         sfs, extra = lr.spec_files(sc, specOrdK=K, specOrdK2=K2)
